@@ -146,16 +146,29 @@ impl Server {
         let grammar_config = grammar_config.clone();
         thread::spawn(move || match grammar_config.grammar_type {
             GrammarType::LLK => {
+                #[cfg(parol_verif)]
+                let _gate = crate::verif_gate::enter("run", version);
                 if let Err(err) = calculate_lookahead_dfas(&grammar_config, max_k) {
+                    #[cfg(parol_verif)]
+                    drop(_gate);
+                    #[cfg(parol_verif)]
+                    let _gate = crate::verif_gate::enter("pub", version);
                     eprintln!("check_grammar: errors from calculate_lookahead_dfas");
                     let _ =
                         Self::notify_analysis_error(err, connection, &uri, version, document_state);
                 }
             }
             GrammarType::LALR1 => {
+                #[cfg(parol_verif)]
+                let _gate = crate::verif_gate::enter("run", version);
                 let result = calculate_lalr1_parse_table(&grammar_config);
+                #[cfg(parol_verif)]
+                drop(_gate);
                 match result {
                     Ok((_, resolved_conflicts)) => {
+                        #[cfg(parol_verif)]
+                        let _gate = (!resolved_conflicts.is_empty())
+                            .then(|| crate::verif_gate::enter("pub", version));
                         let _ = Self::notify_resolved_conflicts(
                             resolved_conflicts,
                             connection,
@@ -164,6 +177,8 @@ impl Server {
                         );
                     }
                     Err(err) => {
+                        #[cfg(parol_verif)]
+                        let _gate = crate::verif_gate::enter("pub", version);
                         eprintln!("check_grammar: errors from calculate_lookahead_dfas");
                         let _ = Self::notify_analysis_error(
                             err,
@@ -192,12 +207,18 @@ impl Server {
                 ..Default::default()
             },
         );
+        #[cfg(parol_verif)]
+        let _gate = crate::verif_gate::enter("handle", params.text_document.version);
         match self.analyze(
             params.text_document.uri.clone(),
             params.text_document.version,
             connection.clone(),
         ) {
             Ok(()) => {
+                #[cfg(parol_verif)]
+                drop(_gate);
+                #[cfg(parol_verif)]
+                let _gate = crate::verif_gate::enter("ok", params.text_document.version);
                 eprintln!("handle_open_document: ok");
                 Self::notify_analysis_ok(
                     connection,
@@ -206,6 +227,10 @@ impl Server {
                 )?;
             }
             Err(err) => {
+                #[cfg(parol_verif)]
+                drop(_gate);
+                #[cfg(parol_verif)]
+                let _gate = crate::verif_gate::enter("ok", params.text_document.version);
                 eprintln!("handle_open_document: error");
                 let document_state = self
                     .documents
@@ -231,12 +256,18 @@ impl Server {
     ) -> Result<(), Box<dyn Error>> {
         let params: DidChangeTextDocumentParams = n.extract(DidChangeTextDocument::METHOD)?;
         self.apply_changes(&params.text_document.uri, &params.content_changes);
+        #[cfg(parol_verif)]
+        let _gate = crate::verif_gate::enter("handle", params.text_document.version);
         match self.analyze(
             params.text_document.uri.clone(),
             params.text_document.version,
             connection.clone(),
         ) {
             Ok(()) => {
+                #[cfg(parol_verif)]
+                drop(_gate);
+                #[cfg(parol_verif)]
+                let _gate = crate::verif_gate::enter("ok", params.text_document.version);
                 eprintln!("handle_change_document: ok");
                 Self::notify_analysis_ok(
                     connection,
@@ -245,6 +276,10 @@ impl Server {
                 )?;
             }
             Err(err) => {
+                #[cfg(parol_verif)]
+                drop(_gate);
+                #[cfg(parol_verif)]
+                let _gate = crate::verif_gate::enter("ok", params.text_document.version);
                 eprintln!("handle_change_document: error");
                 let document_state = self
                     .documents
